@@ -53,6 +53,8 @@ def estimate_minor(
                 mutations |= set(minor.neutral_muts)
         mutations |= set(major_sol.added)
     mutations |= gene.random_mutations
+    # Candidate order must not matter: keep the pooled alleles in a canonical order
+    alleles = sorted(alleles, key=lambda a: (a.major, a.minor))
 
     # Filter out low quality mutations
     # (the threshold depends on the copy number of the candidate's own gene structure)
